@@ -32,7 +32,7 @@ RULE = ('cases: wavefronts of shape 1..5 x 1..5 (one full field, or 2-3 sub-fiel
         'propagate_dft on the full period, on a smaller centred window (shape), and on a window nested in it (smaller shape / '
         'prop_shape / off-centre mask box), pupil→image and image→pupil, scalar and per-axis input sampling dx, untilted / common tilt (integer + sub-pixel, incl. the displaced full period) / per-field sub-pixel tilts, Wavefront.insert with weight ≠ 1; propagate_fft full and cropped, with and without scratch; normalize_power of complex '
         'arrays and of pupil amplitudes that are then imaged. distinct = (kind, field shapes/offsets, K, L, os, windows); '
-        'non-trivial = not (square, isotropic, single field) i.e. outside what the test-suite samples A ≈5 % sample (search tier: a leading block of 150 + padded FFT grids of 2048², 4096×1024, 1024×4100 checked by their totals) comes from an extremes stream: normalize_power targets within 1e-7 … 3e-5 relative or 1e-8 absolute of the present power at amplitude scales 1e-9 … 1e3, field amplitudes at 1e-9 / 1e9, wavelengths / distances / pixel sizes from 1e-9 to 1e6 with near-equal per-axis dx, 33–47 fields per wavefront; the quick tier runs one 4096×1024 FFT grid; all tolerances are relative to Σ|f_k|² resp. the target power. About 10 % of the cases are segmented pupils (3-D mask, 2-3 disjoint segments) on wider-than-tall and taller-than-wide arrays, amplitude normalised to p, imaged over one period by both propagators and judged against the plane\'s amplitude·mask power (oracle only).')
+        'non-trivial = not (square, isotropic, single field) i.e. outside what the test-suite samples A ≈5 % sample (search tier: a leading block of 150 + padded FFT grids of 2048², 4096×1024, 1024×4100 checked by their totals) comes from an extremes stream: normalize_power targets within 1e-7 … 3e-5 relative or 1e-8 absolute of the present power at amplitude scales 1e-9 … 1e3, field amplitudes at 1e-9 / 1e9, wavelengths / distances / pixel sizes from 1e-9 to 1e6 with near-equal per-axis dx, 33–47 fields per wavefront; the quick tier runs one 4096×1024 FFT grid; all tolerances are relative to Σ|f_k|² resp. the target power. About 10 % of the cases are segmented pupils (3-D mask, 2-3 disjoint segments) on wider-than-tall and taller-than-wide arrays, amplitude normalised to p, imaged over one period by both propagators and judged against the plane\'s amplitude·mask power (oracle only). One FFT case in six asks for a shape larger than the grid allows or passes a scratch smaller than the grid (both must raise ValueError, as the C09 model does). Overlapping fields with different sub-pixel tilts are generated and judged against the power of the coherently summed ramped inputs; one-sample windows are generated for multi-field wavefronts too.')
 TRUSTED = ['np.fft.fft2(norm="ortho") is the unitary DFT with origin at index 0; np.fft.fftshift / ifftshift follow their documented '
            'index maps (modelled in Model/Energy.lean, observed through the correspondence)',
            'np.dot / np.exp / np.abs / np.sum as written in the model; Wavefront.intensity merges coincident output fields (C06)']
@@ -161,6 +161,13 @@ def _case(rng, kmax):
     else:
         c['crop'] = _sub(rng, s) if rng.integers(0, 2) else None
         c['scratch'] = [int(rng.integers(0, 4)), int(rng.integers(0, 4))] if rng.integers(0, 3) == 0 else None
+        t = int(rng.integers(0, 12))
+        if t == 0:      # a requested shape larger than the grid allows must be refused (ValueError), not silently cropped
+            c['crop'] = [s[0] + int(rng.integers(1, 3)), s[1]] if rng.integers(0, 2) else [s[0], s[1] + int(rng.integers(1, 3))]; c['bad'] = 'shape'
+        elif t == 1:    # a scratch buffer smaller than the grid must be refused (ValueError)
+            c['scratch'] = [-int(rng.integers(1, 3)), int(rng.integers(0, 2))] if rng.integers(0, 2) else [0, -1]
+            if s[0] * os_ + c['scratch'][0] < 1 or s[1] * os_ + c['scratch'][1] < 1: c['scratch'] = None
+            else: c['bad'] = 'scratch'; c['crop'] = None
     return c
 
 def _big_fft(rng, grid):
@@ -233,7 +240,7 @@ def signature(c):
     if c['kind'] == 'seg': return base + f" seg={c['boxes']} p={c['power']:.6g}"
     fs = ' '.join(f"{f['shape']}@{f['off']}" for f in c['fields'])
     if c['kind'] == 'dft': return base + f" {fs} w2={c['w2']} w1={c['w1']} t={c.get('tilt')} w={c.get('weight')} p={c.get('ptype')}"
-    return base + f" {fs} crop={c['crop']} scratch={c['scratch']}"
+    return base + f" {fs} crop={c['crop']} scratch={c['scratch']} bad={c.get('bad')}"
 
 def nontrivial(c):
     if c['kind'] == 'seg': return True
@@ -258,6 +265,7 @@ def tags(c):
     if c['kind'] == 'fft':
         if c['crop']: t.append('fft:crop')
         if c['scratch']: t.append('fft:scratch')
+        if c.get('bad'): t.append('fft:refused-' + c['bad'])
     if c['kind'] == 'norm': t.append('norm:' + ('complex' if c['amp_im'] is not None else 'pupil-' + c['via']))
     if c.get('summary'): t.append('fft-grid>=2048^2')
     if c['kind'] != 'norm' and len(c['fields']) > 32: t.append('fields>32')
@@ -335,6 +343,13 @@ def impl(c):
         kw = {}
         if c['scratch'] is not None:
             kw['scratch'] = np.full((K + c['scratch'][0], L + c['scratch'][1]), 3.0 + 1.0j, dtype=complex)
+        if c.get('bad'):
+            try:
+                if c['bad'] == 'shape': lentil.propagate_fft(_wavefront(c), pixelscale=du, shape=tuple(c['crop']), oversample=os_, **kw)
+                else: lentil.propagate_fft(_wavefront(c), pixelscale=du, oversample=os_, **kw)
+                return {'refusal': {'exc': None}}
+            except Exception as e:
+                return {'refusal': {'exc': type(e).__name__, 'msg': str(e)[:120]}}
         full = lentil.propagate_fft(_wavefront(c), pixelscale=du, oversample=os_, **kw)
         if c.get('summary'): return {'full': _I(full, True)}
         res = {'full': _I(full)}
@@ -451,6 +466,7 @@ def requests(c, io):
         if c['scratch'] is not None:
             sh = [K + c['scratch'][0], L + c['scratch'][1]]
             base['scratch'] = {'shape': sh, 're': [fbits(3.0)] * (sh[0] * sh[1]), 'im': [fbits(1.0)] * (sh[0] * sh[1])}
+        if c.get('bad'): return [{**base, 'shape': list(c['crop']) if c['bad'] == 'shape' else None}]
         reqs = [{**base, 'shape': None}]
         if c['crop']: reqs.append({**base, 'shape': list(c['crop'])})
         return reqs
@@ -485,6 +501,10 @@ def _marr(d): return np.array([bitsf(x) for x in d['v']], dtype=float).reshape(d
 
 def compare(c, io, mo):
     if c.get('summary') or c['kind'] == 'seg': return None
+    if c.get('bad'):
+        m = mo[0]
+        want = None if m.get('ok') else m.get('err')
+        return None if io['refusal']['exc'] == want else f"propagate_fft refusal: implementation {io['refusal']['exc']}, model {want}"
     for m in mo:
         if not m.get('ok'): return f"model refused: {m.get('err')}"
     if c['kind'] == 'dft':
@@ -541,6 +561,11 @@ def oracle(c, io):
             I = _arr(io['image'])
             if I.size and I.min() < 0: return f'negative intensity {I.min()}'
             if not abs(I.sum() - p) <= TOL * p: return f"normalised pupil (power {p}) images to total {I.sum()} via {c['via']}"
+        return None
+    if c.get('bad'):
+        if io['refusal']['exc'] != 'ValueError':
+            return (f"propagate_fft accepted a {'shape ' + str(c['crop']) + ' larger than the grid allows' if c['bad'] == 'shape' else 'scratch smaller than the grid'}"
+                    f" (raised {io['refusal']['exc']})")
         return None
     P = _power(c); tol = TOL * _scale(c)
     if c.get('summary'):
